@@ -8,19 +8,23 @@
 (*   reset {loc, chain}          new Cron; loc = UTC offset (s) of WithLocation; *)
 (*                               chain = the WithChain option: "none" |          *)
 (*                               "recover" | "skip" | "delay" | "recover+delay"  *)
+(*                               | "recover+skip"                                *)
 (*   sched_call {id,p,ph} / sched_ret {id}   Schedule/AddFunc of an entry whose *)
 (*                               schedule, READ IN THE CRON'S LOCATION, is the  *)
 (*                               set {a : a % p = ph} (p = 0: never fires)      *)
 (*   remove_call {id} / remove_ret {id}                                         *)
 (*   entries_call / entries_ret {list}   list of <<id, next, prev>>             *)
 (*   start                       Start() (issued with no other call in flight)  *)
+(*   runcall {r} / runret {r}    the blocking Run(), called on a goroutine of    *)
+(*                               its own (r-th Run call) / it returned           *)
 (*   stop_call {k} / stop_ret {k}         k-th Stop call                        *)
 (*   stopctx_done {k}            the context returned by the k-th Stop completed*)
 (*   adv {now}                   the driver stepped the clock (now may be       *)
 (*                               unchanged: a step of 0)                        *)
 (*   run {id}                    the scheduler decided to start the job of id   *)
 (*                               (its Logger line "run")                        *)
-(*   jobstart {id} / jobend {id} the job function began / returned              *)
+(*   jobstart {id} / jobend {id} the job function began / returned (jobend also  *)
+(*                               when it ended by panicking under Recover)       *)
 (*   jobskip {id}                an invocation of the entry's wrapped job        *)
 (*                               returned without entering the job function      *)
 (*   nx {off}                    Schedule.Next was called with a time whose     *)
@@ -47,7 +51,7 @@ Bad(why) == [bad |-> TRUE, why |-> why]
 IsBad(c) == c.bad
 
 HasDelay(ch) == ch \in {"delay", "recover+delay"}
-HasSkip(ch) == ch = "skip"
+HasSkip(ch) == ch \in {"skip", "recover+skip"}
 
 CInitC(loc, chain) ==
               [bad |-> FALSE, why |-> "", loc |-> loc, chain |-> chain, now |-> 0,
@@ -55,7 +59,9 @@ CInitC(loc, chain) ==
                ents |-> << >>,          \* id -> entry record
                op |-> "none", snap |-> << >>, fresh |-> FALSE,
                jobs |-> << >>,          \* job instances decided and not yet returned: [id, st, ep]
-               stops |-> 0]             \* number of Stop calls that have returned
+               stops |-> 0,             \* number of Stop calls that have returned
+               stopcalls |-> 0,         \* number of Stop calls made
+               runs |-> << >>]          \* r -> [noop, sc, ret]: Run call r found the Cron running / Stop calls before it / returned
 CInit(loc) == CInitC(loc, "none")
 
 (* The next activation after t: the least instant later than t in the set. *)
@@ -91,7 +97,17 @@ CStart(c) ==
                                THEN [c.ents[i] EXCEPT !.next = NextAct(c.ents[i].p, c.ents[i].ph, c.now), !.owed = 0]
                                ELSE c.ents[i]]]
 
-CStopCall(c, e) == [c EXCEPT !.run = IF c.run = "yes" THEN "stopping" ELSE c.run, !.op = "stop"]
+CStopCall(c, e) == [c EXCEPT !.run = IF c.run = "yes" THEN "stopping" ELSE c.run, !.op = "stop", !.stopcalls = c.stopcalls + 1]
+
+(* Run() is Start() on the caller's goroutine: it starts the scheduler and returns when a later Stop ended it; *)
+(* on a Cron that is already running it starts nothing and returns at once.                                    *)
+CRunCall(c, e) ==
+  [CStart(c) EXCEPT !.runs = (e.r :> [noop |-> c.run # "no", sc |-> c.stopcalls, ret |-> FALSE]) @@ c.runs]
+CRunRet(c, e) ==
+  IF e.r \notin DOMAIN c.runs THEN c
+  ELSE IF ~c.runs[e.r].noop /\ c.stopcalls = c.runs[e.r].sc
+    THEN Bad("Run returned although Stop was not called")
+  ELSE [c EXCEPT !.runs[e.r].ret = TRUE]
 (* what was owed and not decided before Stop returned is never started: the entry keeps the pair it had *)
 CStopRet(c, e) ==
   [c EXCEPT !.run = "no", !.op = "none", !.stops = c.stops + 1,
@@ -171,6 +187,8 @@ CEntriesRet(c, e) ==
 
 CQuiescent(c) ==
   IF c.op # "none" THEN c
+  ELSE IF \E r \in DOMAIN c.runs : c.runs[r].noop /\ ~c.runs[r].ret
+    THEN Bad("Run on a Cron that was already running did not return at once")
   ELSE IF \E j \in 1..Len(c.jobs) : /\ c.jobs[j].st = "decided"
                                       /\ ~(HasDelay(c.chain) /\ Has(c.jobs, c.jobs[j].id, "running"))
     THEN IF HasDelay(c.chain) \/ HasSkip(c.chain)
@@ -193,6 +211,8 @@ CNext(c, e) ==
          [] e.ev = "entries_call" -> CEntriesCall(c)
          [] e.ev = "entries_ret"  -> CEntriesRet(c, e)
          [] e.ev = "start"        -> CStart(c)
+         [] e.ev = "runcall"      -> CRunCall(c, e)
+         [] e.ev = "runret"       -> CRunRet(c, e)
          [] e.ev = "stop_call"    -> CStopCall(c, e)
          [] e.ev = "stop_ret"     -> CStopRet(c, e)
          [] e.ev = "stopctx_done" -> CStopCtxDone(c, e)
